@@ -82,6 +82,10 @@ func zzRead(a *api.ApiContext, obj interface{}) error {
 	case *Checkpoint:
 		in.SnapshotName = zzName("in.name")
 	case *RevisionCounter:
+		if zzCounterOverride {
+			in.Counter = zzCounterText
+			return nil
+		}
 		in.Counter = zzPick("in.counter", "", "7", "-1", "x")
 	case *Action:
 		in.Value = zzPick("in.action", "start", "add", "")
@@ -116,8 +120,10 @@ func zzQuery(u *url.URL) url.Values              { return url.Values{"action": {
 // the body.  The router dispatches on the URL query alone.
 var zzFormAction string
 
-// a harness-chosen updatecloneinfo body
+// harness-chosen updatecloneinfo / setrevisioncounter bodies
 var (
+	zzCounterOverride bool
+	zzCounterText     string
 	zzCloneOverride      bool
 	zzCloneSnap, zzCloneRev string
 )
